@@ -16,17 +16,44 @@ void FileMonitor::note_live(const std::vector<SstFile> &files) {
   for (auto &f : files) ever_live.insert(f.number);
 }
 
-void FileMonitor::after_crash(const string &) { created.clear(); }
+void FileMonitor::after_crash(const string &) { created.clear(); mprog.clear(); mprog_init = false; }
 
-void FileMonitor::scan(const simfs::Journal &j, size_t *pos, const std::vector<const std::set<uint64_t> *> &pins) {
-  for (; *pos < j.e.size(); ++*pos) {
+void FileMonitor::scan(const simfs::Journal &j, size_t *pos, const std::vector<const std::set<uint64_t> *> &pins, size_t end) {
+  if (!mprog_init) {
+    mprog_init = true;
+    for (auto &kv : j.base) {
+      uint64_t n; int c;
+      size_t s2 = kv.first.rfind('/');
+      if (parse_db_filename(kv.first.substr(s2 + 1), &n, &c) && c == simfs::FC_MANIFEST) { auto bl = j.base_len.find(kv.second); mprog[kv.second] = bl == j.base_len.end() ? 0 : bl->second; }
+    }
+  }
+  for (; *pos < j.e.size() && *pos < end; ++*pos) {
     const simfs::JEntry &e = j.e[*pos];
     if (e.t != simfs::J_UNLINK && e.t != simfs::J_CREATE && e.t != simfs::J_WRITE) continue;
     size_t sl = e.a.rfind('/');
     string base = e.a.substr(sl + 1);
     uint64_t num; int fc;
     if (!parse_db_filename(base, &num, &fc)) continue;
-    if (e.t == simfs::J_WRITE) { if (fc == simfs::FC_LOG && e.len > 0) ever_live.insert(num); continue; }
+    if (e.t == simfs::J_WRITE) {
+      if (fc == simfs::FC_LOG && e.len > 0) ever_live.insert(num);
+      if (fc == simfs::FC_MANIFEST) { size_t &pr = mprog[e.ino]; pr = std::max(pr, e.off + e.len); }
+      continue;
+    }
+    if (e.t == simfs::J_UNLINK && fc == simfs::FC_LOG && ever_live.count(num)) {
+      // a log that received data may go only once a version edit naming a higher log number has been written: until
+      // then it holds the only copy outside memory of a write buffer that is still being filled or flushed
+      uint64_t maxlog = 0;
+      for (auto &m : mprog) {
+        auto d = j.data.find(m.first);
+        if (d == j.data.end()) continue;
+        ref::LogDecode ld = ref::log_decode(d->second.substr(0, std::min(m.second, d->second.size())));
+        for (auto &r : ld.records) { ref::Edit ed; if (ref::edit_decode(r.data, &ed) && ed.has_log) maxlog = std::max(maxlog, ed.log); }
+      }
+      count("log_unlinks_checked");
+      if (num >= maxlog)
+        violation("C13", "log_unlinked_early", "%s was unlinked (journal entry %zu, step %llu) although no version edit written so far names a log number above it (highest recorded: %llu): the write buffer it backs is not in any table yet", base.c_str(), *pos, (unsigned long long)e.step, (unsigned long long)maxlog);
+      continue;
+    }
     if (e.t == simfs::J_UNLINK) {
       if (fc == simfs::FC_TABLE)
         for (auto *p : pins)
@@ -42,8 +69,8 @@ void FileMonitor::scan(const simfs::Journal &j, size_t *pos, const std::vector<c
       if (!pair_ok) violation("C13", "number_reused", "file number %llu is used again for %s within one process incarnation (journal entry %zu)", (unsigned long long)num, base.c_str(), *pos);
     }
     if (it == created.end() || grp < 100) created[num] = grp;
-    if ((fc == simfs::FC_TABLE || fc == simfs::FC_LOG) && ever_live.count(num))
-      violation("C13", "number_reused", "file number %llu of a file that was live earlier is reused for %s (journal entry %zu)", (unsigned long long)num, base.c_str(), *pos);
+    if ((fc == simfs::FC_TABLE || fc == simfs::FC_LOG || fc == simfs::FC_MANIFEST) && ever_live.count(num))
+      violation("C13", "number_reused", "file number %llu of a file that was live earlier (a table named by a version, or a log that received data) is reused for %s (journal entry %zu)", (unsigned long long)num, base.c_str(), *pos);
   }
 }
 
